@@ -15,6 +15,7 @@ import (
 	pkgerrors "github.com/pkg/errors"
 	apierrors "k8s.io/apimachinery/pkg/api/errors"
 	metav1 "k8s.io/apimachinery/pkg/apis/meta/v1"
+	"k8s.io/apimachinery/pkg/apis/meta/v1/unstructured"
 	"k8s.io/apimachinery/pkg/runtime"
 	"k8s.io/apimachinery/pkg/runtime/schema"
 	"k8s.io/apimachinery/pkg/watch"
@@ -140,6 +141,7 @@ type Server struct {
 	InflightWatch int
 	HoldFirstList chan struct{} // if non-nil the first list waits for this channel (C08)
 	uids          int
+	Unstructured  bool // objects and lists in the dynamic client's representation (*unstructured.Unstructured / UnstructuredList)
 	EmptyListRV   bool // lists carry no resourceVersion of their own
 	Reuse         bool // one live object per key, mutated in place and re-sent by pointer
 	live          map[string]runtime.Object
@@ -413,6 +415,10 @@ func (s *Server) List(ctx context.Context, opts metav1.ListOptions) (runtime.Obj
 	case "noitems":
 		call.Outcome = "noitems"
 		return &noItemsList{ListMeta: metav1.ListMeta{ResourceVersion: rv}}, nil
+	case "unstructured-object":
+		// a dynamic-style client: a single (non-list) object decoded as *unstructured.Unstructured
+		call.Outcome = "unstructured-object"
+		return &unstructured.Unstructured{Object: map[string]interface{}{"apiVersion": "v1", "kind": "Status", "metadata": map[string]interface{}{"resourceVersion": rv}, "status": "Failure", "message": "injected: a status document instead of a list"}}, nil
 	case "status-object":
 		// what rest.Result.Get() yields when the server answers a list request
 		// with a Status: an object with ListMeta that is not a list
@@ -428,6 +434,15 @@ func (s *Server) List(ctx context.Context, opts metav1.ListOptions) (runtime.Obj
 	}
 	if s.Typed {
 		return BuildTypedList(s.Kind, rv, snap), nil
+	}
+	if s.Unstructured {
+		// what the dynamic client returns: an UnstructuredList of Unstructured items
+		l := &unstructured.UnstructuredList{Object: map[string]interface{}{"apiVersion": "v1", "kind": "List"}}
+		l.SetResourceVersion(rv)
+		for _, o := range snap {
+			l.Items = append(l.Items, *ToUnstructured(Build(s.Kind, o)))
+		}
+		return l, nil
 	}
 	if s.Reuse {
 		l := &metav1.List{ListMeta: metav1.ListMeta{ResourceVersion: rv}}
@@ -445,6 +460,9 @@ func (s *Server) List(ctx context.Context, opts metav1.ListOptions) (runtime.Obj
 // used in runs where every write is drained before the next one, so that no
 // consumer still has an older state of the object in flight).
 func (s *Server) object(o Spec, deleted bool) runtime.Object {
+	if s.Unstructured {
+		return ToUnstructured(Build(s.Kind, o))
+	}
 	if !s.Reuse {
 		return Build(s.Kind, o)
 	}
@@ -739,4 +757,13 @@ func (c *conn) pump(ctx context.Context, gone bool) {
 			return
 		}
 	}
+}
+
+// ToUnstructured converts a typed API object into the dynamic client's representation.
+func ToUnstructured(o runtime.Object) *unstructured.Unstructured {
+	m, err := runtime.DefaultUnstructuredConverter.ToUnstructured(o)
+	if err != nil {
+		panic("world: ToUnstructured: " + err.Error())
+	}
+	return &unstructured.Unstructured{Object: m}
 }
